@@ -142,26 +142,52 @@ def follow(t, base, explicit):
     return cur
 
 
-def resolve(t, base, path):
-    """the manifest's explicit path for this name if that file exists; else next to the importing
-    file, then next to the entry file; always the physical file, which must lie below the
-    directory it was looked up from"""
+def resolve_how(t, base, path):
+    """-> (file or None, set of features of the resolution) -- see resolve()"""
+    how = set()
     root = t["entry"].split("/")[:-1]
+
+    def found(c, f, tag):
+        how.add(tag)
+        if canon(t, c) != c:
+            how.add("through-symlink")
+        if f.endswith("/mod") or f == "mod":
+            how.add("mod.aelys")
+        return f
+
     ex = t["hints"].get(".".join(path))
     if ex is not None:
         c = follow(t, base, ex)
         if c is not None:
             f = "/".join(c)
             if f in t["files"]:
-                return f if c[:len(base)] == base else None
-    r = resolve_in(t, base, path)
-    if isinstance(r, tuple):
-        return r[1]
-    if base != root:
-        r = resolve_in(t, root, path)
-        if isinstance(r, tuple):
-            return r[1]
-    return None
+                if c[:len(base)] == base:
+                    how.add("manifest-path")
+                    if ".." in ex.split("/") or "." in ex.split("/"):
+                        how.add("manifest-path-with-dots")
+                    return f, how
+                how.add("rejected-outside-root")
+                return None, how
+        how.add("manifest-path-missing-falls-back-to-search")
+    for d, tag in ((base, "next-to-importer"), (root, "next-to-entry")):
+        if tag == "next-to-entry" and base == root:
+            break
+        for cand in (d + path, d + path + ["mod"]):
+            r = lookup_file(t, d, cand)
+            if isinstance(r, tuple):
+                return found(cand, r[1], tag), how
+            if r == "stop":
+                how.add("rejected-outside-root")
+                break
+    how.add("unresolved")
+    return None, how
+
+
+def resolve(t, base, path):
+    """the manifest's explicit path for this name if that file exists; else next to the importing
+    file, then next to the entry file; always the physical file, which must lie below the
+    directory it was looked up from"""
+    return resolve_how(t, base, path)[0]
 
 
 def resolve_import(t, importer, imp):
@@ -185,7 +211,7 @@ def is_std(imp):
 def analyse(t):
     """Reference view of the tree: reachable files, edges, cycles, defects."""
     entry = t["entry"]
-    a = {"reach": [], "edges": {}, "defects": set(), "possible": set()}
+    a = {"reach": [], "edges": {}, "defects": set(), "possible": set(), "features": collections.Counter()}
     seen, todo = {entry}, [entry]
     while todo:
         f = todo.pop(0)
@@ -195,9 +221,16 @@ def analyse(t):
             if is_std(imp):
                 continue
             tgt, key, sym = resolve_import(t, f, imp)
+            base_f = f.split("/")[:-1]
+            _, how = resolve_how(t, base_f, imp["path"] if sym is None else imp["path"][:-1])
+            for h in how:
+                a["features"][h] += 1
+            a["features"]["form:" + ("path-symbol" if sym is not None else imp["form"])] += 1
             if tgt is None:
                 a["defects"].add(2)
                 continue
+            if tgt in seen:
+                a["features"]["import of an already loaded file (memo or cycle)"] += 1
             a["edges"][f].append(tgt)
             want = []
             if imp["form"] == "symbols" and sym is None:
@@ -577,6 +610,7 @@ def check_rows(ctx, rows, prof, origin, stats):
         if len(t["files"]) >= 2:
             stats["distinct"].add(r[2].split(";", 1)[1])
         fs, a = oracle(t, code, trace, probes)
+        stats["features"].update(a["features"])
         if a["shared_names"]:
             stats["ns_class"] += 1
         if len({f.rsplit("/", 1)[0] if "/" in f else "" for f in a["reach"]}) > 1:
@@ -614,7 +648,8 @@ def run(ctx):
     stats = {"runs": 0, "codes": collections.Counter(), "labels": collections.Counter(), "distinct": set(),
              "oracle_failures": collections.Counter(), "guards": collections.Counter(), "sessions": 0,
              "session_inputs": collections.Counter(), "session_outcomes": collections.Counter(), "opt_levels": collections.Counter(),
-             "forms": collections.Counter(), "spellings": collections.Counter(), "sizes": collections.Counter(), "ns_class": 0, "nested": 0, "cyclic": 0}
+             "forms": collections.Counter(), "spellings": collections.Counter(), "sizes": collections.Counter(),
+             "features": collections.Counter(), "ns_class": 0, "nested": 0, "cyclic": 0}
     corpus = sorted(glob.glob(os.path.join(vlib.VERIF, "corpus", "C19", "*.txt")))
     if getattr(ctx, "replay_file", None):
         import json
@@ -638,10 +673,13 @@ def run(ctx):
             check_rows(ctx, rows, prof, "corpus/" + os.path.basename(f), stats)
         if getattr(ctx, "replay_file", None) and n_random == 0:
             continue
-        rows = run_harness(ctx, paths["hx_modules"], ["--seed", str(ctx.seed), "--gen", str(n_random)], prof)
-        if rows is None:
-            return
-        check_rows(ctx, rows, prof, "generated", stats)
+        extra = [] if ctx.tier == "quick" else ["--maxfiles", "14", "--deep", "150", "--probes", "18"]
+        seeds = [ctx.seed] if (ctx.tier == "quick" or prof == "release") else [ctx.seed, ctx.seed + 1000]
+        for sd in seeds:
+            rows = run_harness(ctx, paths["hx_modules"], ["--seed", str(sd), "--gen", str(n_random)] + extra, prof)
+            if rows is None:
+                return
+            check_rows(ctx, rows, prof, "generated" if sd == ctx.seed else f"generated(seed {sd})", stats)
         ctx.add_samples([{"tree": r[2], "observed": r[3]} for r in (rows[2], rows[len(rows) // 2], rows[-1])])
     ctx.cov["evaluations"] = stats["runs"]
     ctx.cov["distinct_nontrivial"] = len(stats["distinct"])
@@ -654,10 +692,13 @@ def run(ctx):
         "repl_last_outcome": dict(stats["session_outcomes"]),
         "entry_opt_levels": dict(stats["opt_levels"]), "import_statements_by_form": dict(stats["forms"]),
         "files_per_tree": dict(sorted(stats["sizes"].items())), "spelling_features": dict(stats["spellings"]),
-        "random_flavours": "f0 flat forward-only 40%, f1 flat with back edges 15%, f2 nested directories with repeated file names, "
-                           "mod.aelys and imports resolved next to the entry file 20%, f3 shared definition names 10%, f4 malformed "
+        "model_features_reached(reachable imports)": dict(sorted(stats["features"].items())),
+        "random_flavours": "f0 flat forward-only 35%, f1 flat with back edges 15%, f2 nested directories with repeated file names, "
+                           "mod.aelys, imports resolved next to the entry file and symlinks leaving a module directory 25%, f3 shared definition names 10%, f4 malformed "
                            "(missing modules, private/undefined symbols, `needs mod.symbol`) 15%; only f3 (a global name defined by two "
-                           "modules) and trees where two importers use one qualifier for different modules fall into the open classes",
+                           "modules) and trees where two importers use one qualifier for different modules fall into the open classes; "
+                           "a quarter of f0-f3 trees get some imports respelled (suffix s): symlink to the file, symlinked directory, "
+                           "explicit manifest path with ./ and d/../; the entry is compiled at O(index mod 4); a sixth as many REPL sessions",
     }
     ctx.cov["oracle_failures_by_root_cause"] = dict(stats["oracle_failures"])
     ctx.cov["refuted_lemmas"] = ["C19_flat_namespace_collision_refuted", "C19_shared_qualifier_refuted"]
